@@ -58,6 +58,7 @@ func relay(from io.Reader, to io.Writer, rewrite func(frame []byte) []byte, clos
 // NewE3 builds the stack and negotiates.  att may be nil (then fs is the attacher).
 func NewE3(att p9.Attacher, fs *simfs.FS, version int, msize uint32, seg int) (*E3, error) {
 	e := &E3{FS: fs, Version: version}
+	liveFS = append(liveFS, fs)
 	if att == nil {
 		att = fs
 	}
